@@ -150,6 +150,15 @@ func (g *c12Gen) nodes(depth int, inMacro int) []MNode {
 				nd.Body = append(nd.Body, MNode{K: "set", Name: pick(g.t, "msn", c12Names), E: &e})
 			}
 			nd.Body = append(nd.Body, g.probe())
+			if drawInt(g.t, 0, 2, "tolib") == 0 {
+				// the same macro, kept in a library file and imported: it runs in the scope it is
+				// called in just like a local one
+				nd.Export = true
+				file := fmt.Sprintf("/libm%d.tpl", idx)
+				g.files[file] = []MNode{nd}
+				out = append(out, MNode{K: "import", Name: file, Imps: []MPair{{Name: nd.Name}}})
+				continue
+			}
 			out = append(out, nd)
 		case "call":
 			max := 2
@@ -235,11 +244,30 @@ func checkC12(c any, r *Rec) error {
 	// a binding must not survive the execution either: the same compiled template rendered twice
 	// more gives the same text (a set / with / loop variable left behind would show in the probes)
 	if werr == nil {
-		outs, errs, cerr := mmEngineSeq(cs.Root, cs.Files, cs.Globals, []Val{cs.Ctx, cs.Ctx})
+		// ... nor may anything of one execution's context show up in the next: in between, the same
+		// template is rendered with other values under the same names
+		ctx2 := cs.Ctx
+		ctx2.E = append([]Val(nil), cs.Ctx.E...)
+		for i, v := range ctx2.E {
+			switch v.K {
+			case "str":
+				ctx2.E[i] = vStr(v.Str() + "2")
+			case "int":
+				ctx2.E[i] = vInt(int(v.I) + 10)
+			}
+		}
+		wants := []string{want, "", want}
+		var w2err *mErr
+		wants[1], w2err = mmReference(cs.Root, cs.Files, cs.Globals, ctx2)
+		seq := []Val{cs.Ctx, ctx2, cs.Ctx}
+		if w2err != nil {
+			seq, wants = []Val{cs.Ctx, cs.Ctx}, []string{want, want}
+		}
+		outs, errs, cerr := mmEngineSeq(cs.Root, cs.Files, cs.Globals, seq)
 		if cerr == nil {
 			for i := range outs {
-				if errs[i] != nil || outs[i] != want {
-					return fmt.Errorf("rendering %d of one compiled template: got %q (err %v), want %q\n %s", i+1, outs[i], errs[i], want, desc)
+				if errs[i] != nil || outs[i] != wants[i] {
+					return fmt.Errorf("rendering %d of %d of one compiled template (the second one with other values under the same names): got %q (err %v), want %q\n %s", i+1, len(outs), outs[i], errs[i], wants[i], desc)
 				}
 			}
 		}
@@ -328,7 +356,7 @@ func genC12Ctx(t *rapid.T) (Val, Val) {
 
 var _ = register(&propSpec{
 	ID:   "C12.scope",
-	Rule: "nestings (depth <= 4) of with (both syntaxes, several pairs), for (lists, strings, maps k,v sorted, reversed, empty), macro definition/call (defaults, too many arguments), set, if, include (with pairs / only; included file rebinding and probing the same names) over 4 deliberately colliding names; a probe {{ name }} after every construct and inside every body; the same names also in Context and Globals with different values. Oracle: reference environment model (child scope = copy; with-pairs evaluated outside; one scope per for; macro body in a child of the defining scope taken at call time; include = fresh public context) predicts every probe; the caller's Context and the set's Globals must be deeply equal to freshly built copies afterwards. Non-trivial: a name bound again inside a construct that already binds it.",
+	Rule: "nestings (depth <= 4) of with (both syntaxes, several pairs), for (lists, strings, maps k,v sorted, reversed, empty), macro definition/call (defaults, too many arguments), set, if, include (with pairs / only; included file rebinding and probing the same names) over 4 deliberately colliding names (a third of the macros live in a library file and are imported); a probe {{ name }} after every construct and inside every body; the same names also in Context and Globals with different values. Oracle: reference environment model (child scope = copy; with-pairs evaluated outside; one scope per for; macro body in a child of the defining scope taken at call time; include = fresh public context) predicts every probe; the caller's Context and the set's Globals must be deeply equal to freshly built copies afterwards; the compiled template is then rendered three more times - with the same context, with other values under the same names, with the first context again - and every rendering must match the reference for its context. Non-trivial: a name bound again inside a construct that already binds it.",
 	Gen: func(t *rapid.T) any {
 		g := &c12Gen{t: t, files: map[string][]MNode{}}
 		root := g.nodes(3, -1)
@@ -349,6 +377,9 @@ type c12Keys struct {
 	Macro  bool   `json:"macro"` // key clashes with an exported macro instead of being malformed
 	Nested bool   `json:"nested"`
 	Shape  string `json:"shape,omitempty"`
+	// Reuse: the caller keeps ONE Context map (and the set's Globals) around: valid at first and
+	// executed, then the key is added to the very same map, later removed again
+	Reuse bool `json:"reuse,omitempty"`
 }
 
 // (c12Keys.Shape: "" | child | grandchild - the template that is executed stands alone or extends)
@@ -369,14 +400,28 @@ func checkC12Keys(c any, r *Rec) error {
 		src = `{% extends "/kbase2.tpl" %}{% block kb %}` + src + `{% endblock %}`
 	}
 	ctx := pongo2.Context{"x": "X"}
+	tpl, err := set.FromString(src)
+	if err != nil {
+		return err
+	}
+	okRun := func(when string) error {
+		for i := 0; i < 2; i++ {
+			out, xerr := tpl.Execute(ctx)
+			if xerr != nil || !strings.Contains(out, "beforeXafter") {
+				return fmt.Errorf("%s the key %q is in the map, the very same Context map renders %q, err %v", when, key, out, xerr)
+			}
+		}
+		return nil
+	}
+	if cs.Reuse {
+		if err := okRun("before"); err != nil {
+			return err
+		}
+	}
 	if cs.Where == "globals" && !cs.Macro {
 		set.Globals[key] = 1
 	} else {
 		ctx[key] = 1
-	}
-	tpl, err := set.FromString(src)
-	if err != nil {
-		return err
 	}
 	for _, entry := range []string{"Execute", "ExecuteWriter", "ExecuteWriterUnbuffered"} {
 		w := &plainWriter{}
@@ -399,15 +444,22 @@ func checkC12Keys(c any, r *Rec) error {
 			return fmt.Errorf("%s rejected the context key %q but rendered %q first", entry, key, out)
 		}
 	}
+	if cs.Reuse {
+		delete(set.Globals, key)
+		delete(ctx, key)
+		if err := okRun("after"); err != nil {
+			return err
+		}
+	}
 	r.NonTrivial(fmt.Sprint(*cs))
 	return nil
 }
 
 var _ = register(&propSpec{
 	ID:   "C12.keys",
-	Rule: "context / globals keys that are not identifiers (empty, space, punctuation, non-ASCII, leading dash, dot, newline) or that clash with a macro exported by the executed template (which stands alone or extends another one): every entry point must return an error and render nothing. Every case is non-trivial.",
+	Rule: "context / globals keys that are not identifiers (empty, space, punctuation, non-ASCII, leading dash, dot, newline) or that clash with a macro exported by the executed template (which stands alone or extends another one): every entry point must return an error and render nothing - also when the key is added to a Context map / Globals that were valid and executed before (the same map object), and removing it makes the map valid again. Every case is non-trivial.",
 	Gen: func(t *rapid.T) any {
-		return &c12Keys{Key: pick(t, "key", []string{"", " ", "a b", "a-b", "é", "a.b", "x\n", "-x", "a[0]", "{{", "日本", "a,b", "a+"}), Where: pick(t, "where", []string{"ctx", "globals"}), Macro: drawInt(t, 0, 3, "macro") == 0, Shape: pick(t, "shape", []string{"", "", "child", "grandchild"})}
+		return &c12Keys{Key: pick(t, "key", []string{"", " ", "a b", "a-b", "é", "a.b", "x\n", "-x", "a[0]", "{{", "日本", "a,b", "a+"}), Where: pick(t, "where", []string{"ctx", "globals"}), Macro: drawInt(t, 0, 3, "macro") == 0, Shape: pick(t, "shape", []string{"", "", "child", "grandchild"}), Reuse: drawBool(t, "reuse")}
 	},
 	New:   func() any { return &c12Keys{} },
 	Check: checkC12Keys,
